@@ -75,16 +75,23 @@ theorem getLast?_decChars (n : Nat) : ∃ c, (decChars n).getLast? = some c ∧ 
   | none => exact absurd (List.getLast?_eq_none_iff.mp h) (decChars_ne_nil n)
   | some c => exact ⟨c, rfl, decChars_isDigit n c (List.mem_of_getLast? h)⟩
 
+theorem decChars_short (i : Nat) (hi : i < HARDENED_OFFSET) : ¬ (decChars i).length > INT_MAX_STR_DIGITS := by
+  have h10 : i < 10 ^ 10 := Nat.lt_of_lt_of_le hi (by decide)
+  have := (Nat.length_toDigits_le_iff (b := 10) (n := i) (k := 10) (by omega) (by omega)).mpr h10
+  have e : INT_MAX_STR_DIGITS = 4300 := rfl
+  unfold decChars
+  omega
+
 theorem stepOf_plain (i : Nat) (hi : i < HARDENED_OFFSET) : stepOf (decChars i) = .ok (i, none) := by
   obtain ⟨c, hc, hd'⟩ := getLast?_decChars i
   simp only [stepOf, hc, Option.bind_some, hardOf_digit hd', Option.isSome_none, Bool.false_eq_true,
-    if_false, parseDec_decChars, hi, if_true, Nat.add_zero]
+    if_false, decChars_short i hi, parseDec_decChars, hi, if_true, Nat.add_zero]
 
 theorem stepOf_hardened (hd : Hard) (i : Nat) (hlt : i < HARDENED_OFFSET) :
     stepOf (decChars i ++ [hd.char]) = .ok (i + HARDENED_OFFSET, some hd) := by
   have hl : (decChars i ++ [hd.char]).getLast? = some hd.char := by simp
   simp only [stepOf, hl, Option.bind_some, hardOf_char, Option.isSome_some, if_true, List.dropLast_concat,
-    parseDec_decChars, hlt]
+    decChars_short i hlt, if_false, parseDec_decChars, hlt]
 
 theorem stepOf_strIndex (hd : Hard) (i : Nat) (h : i < 2 * HARDENED_OFFSET) :
     stepOf (strIndex hd i) = .ok (i, symOf hd i) := by
